@@ -179,6 +179,17 @@ pub fn log_json(log: &[(Op, Resp)], last: usize) -> Value {
 }
 
 pub fn violation(rep: &mut WorkerReport, prop: &str, seed: u64, sig: &str, what: String, detail: Value) {
+    // A call that did not return within the harness's wall-clock limit decides nothing on a loaded
+    // machine. The checks that judge hangs (C08, C09, C11) bring their own witnesses (logical hang
+    // flags, a wedged-server probe, the lock-event log); everywhere else a response that is just
+    // "timed out" makes the case inconclusive, never a violation.
+    if !matches!(prop, "C08" | "C09" | "C11") {
+        let t = "{\"timeout\":true}";
+        if what.contains(t) || serde_json::to_string(&detail).map(|d| d.replace('\\', "").contains(t)).unwrap_or(false) {
+            rep.inconclusive(format!("{}: a call hit the harness's wall-clock limit ({})", sig, what.chars().take(160).collect::<String>()));
+            return;
+        }
+    }
     let replay = crate::report::write_replay(prop, seed, &json!({"property": prop, "seed": seed, "signature": sig, "what": what, "detail": detail}));
     rep.violations.push(Violation { sig: sig.to_string(), what, replay });
 }
